@@ -1,13 +1,7 @@
 """C06 - a valid index is always equivalent to one rebuilt from storage."""
 ID = "C06"
-_IX = "tinyflux.index.Index."
-FUNCTIONS = [_IX + f for f in (
-    "__init__", "_reset", "invalidate", "valid", "__len__", "empty",
-    "_insert_measurements", "_insert_tags", "_insert_fields", "_insert_time", "insert", "build",
-    "_remove_measurements", "_remove_tags", "_remove_fields", "_remove_timestamps", "remove",
-    "_update_measurements", "_update_tags", "_update_fields", "update",
-)]
-SHARDS = {_IX + "insert": 8, _IX + "build": 8, _IX + "_remove_tags": 6, _IX + "remove": 6, _IX + "update": 4, _IX + "_remove_measurements": 2}
+from .common import *
+FUNCTIONS = INDEX_MUTATORS + [TF + f for f in ("reindex", "_reset_database", "_remove_helper", "remove", "remove_all", "drop_measurement")] + ["lemma:count"]
 ASSUMED = []
 STANDIN = "standins/dbdiff.py"
 TRUSTED = [
